@@ -38,7 +38,7 @@ def shards(tier):
         sh = e1.std_shards(tier, with_p=True, with_big=True, with_hist=True)
         sh += space.w_shards(sizes=(31, 65), kinds=('ordinal',))
     else:
-        sh = e1.std_shards(tier, with_p=True, with_big=True, extra_thorough_shapes=((4, 5), (5, 4)))
+        sh = e1.std_shards(tier, with_p=True, with_big=True, with_hist=True, extra_thorough_shapes=((4, 5), (5, 4)))
         sh += [s for s in space.w_shards() if s not in sh] + [('W', 'ordinal', 1200)]
     return sh
 
